@@ -15,9 +15,15 @@ Monitors
   a fresh serial number.
 * ambient serial registry (weak references to every ParameterCollection ever constructed in the shard): no two live
   constructed/deep-copied collections share a number; numbers handed out after a database load are not loaded ones.
-* read-only law: after ``makeParametersReadOnly`` every assignment is refused and the observation does not change.
+* read-only law: after ``makeParametersReadOnly`` and on the result of ``Database.loadReadOnly`` every assignment, deletion
+  (``del p[name]``, ``del p[(name, ts)]``) and public setter is refused and the observation does not change; refusals that are armi's
+  read-only refusal (RuntimeError "... read-only ...") are counted apart from a setter's own ValueError/TypeError.
+* scopes are left normally or (p = 0.15) through a private exception raised as the last statement of the with-body, which propagates
+  through 1-3 nested scopes; the same restore law is judged for every scope it leaves.
+* an unset parameter that has a default (never stored, or deleted) is observed through the public getter (it reads its default).
 
-Mechanism keys of the genuine defects this check reproduces on the pinned tree (reported to the lead, see known_findings.json):
+Mechanism keys of the genuine defects this check reproduced on the pinned tree (reported to the lead, all repaired since - see
+known_findings.json, status fixed; they are violations again if they come back):
   grid/nested-scope-single-backup-slot                  StructuredGrid.backUp keeps one slot; nested scopes restore the inner entry state
   restoreBackup/kept-array-shape-change-raises          kept array whose shape changed: ``retained != current`` cannot broadcast, exit aborts
   restoreBackup/kept-array-broadcast-equal-lost         kept array whose new value broadcasts equal to the old one is silently dropped
@@ -25,6 +31,11 @@ Mechanism keys of the genuine defects this check reproduces on the pinned tree (
   cache/material-cache-leaks/scope-target-own-material  a scope opened on a component does not back up that component's own material cache
   readonly/setNumberDensity-changes-value               updateNumberDensities mutates the dict in place before the refusal
   readonly/history-tuple-item-changes-value             ``p[(name, ts)] = v`` bypasses the read-only switch
+  readonly/delete-changes-value                         ``del p[name]`` bypasses the read-only switch (value falls back to the default)
+  readonly/history-tuple-delete-changes-value           ``del p[(name, ts)]`` bypasses the read-only switch
+  restore/deleted-parameter-reads-NoDefault-sentinel    a deleted parameter that has a default reads its default; __getstate__ encodes "absent" as
+  copy/deepcopy/deleted-parameter-reads-NoDefault-sentinel   the NoDefault sentinel and restoreBackup / deepcopy / pickle store the sentinel as the value, so
+  copy/pickle/deleted-parameter-reads-NoDefault-sentinel     the getter hands out the class NoDefault afterwards (planted by hazard "deleted-default" only)
 The generator steers away from these unless a case is meant to plant one (``hazard`` in the case description), so that the rest of
 the history is still judged on the unrepaired tree.
 """
@@ -43,11 +54,17 @@ RULE = (
     "ParameterDefinition objects of the objects' own collections; edits: assignment (attribute or item syntax) of every value kind {float incl. "
     "nan/inf, int, bool, numpy scalar, str, None, list, tuple, dict, ndarray (f8,f4,i8,bool,str; 0-d..2-d; shape changes), list/dict of arrays} "
     "to any definition incl. never-assigned ones, in-place mutation of arrays/lists/dicts, history-tuple items, setNumberDensity, setTemperature, "
-    "Block.setHeight, HexGrid.changePitch, cache warmers (getVolume/getArea/getMass/material.getProperty/clearCache); geometry-critical "
+    "Block.setHeight, HexGrid.changePitch, cache warmers (getVolume/getArea/getMass/material.getProperty/clearCache), del p[name] of stored parameters "
+    "that no open scope keeps; scopes end normally or (p=0.15) through an exception raised in the with-body that propagates through 1-3 nested scopes; "
+    "hazard class of a case: none / any (kept parameters receive any value) / a planted shape-change, broadcast-equal or container-of-arrays value on a "
+    "kept parameter / deleted-default (deleted defaulted parameters stay deleted over scope entries and copies); geometry-critical "
     "parameters (dimensions, height, temperatures, number densities, flags, validated setters) only get values of their own kind. A case = one "
     "history; distinct = (root kind, target level, depth, keep modes, hazard class, edit kinds, copy kinds); non-trivial = at least one scope "
-    "ended with an observed value different from its entry value. Read-only cases: every object x sampled definitions x {attribute, item} plus "
-    "public setters; database cases: write, drop, restart the serial counter (simulated fresh process), load, construct."
+    "ended with an observed value different from its entry value. Read-only cases (makeParametersReadOnly after a prelude, an assembly in the spent "
+    "fuel pool in half of them; and the reactor returned by Database.loadReadOnly): the reactor, all its direct children, one object per class, "
+    "everything outside the core and a random rest x sampled definitions x {attribute, item} plus public setters, del p[name] of a stored parameter "
+    "and del p[(name, ts)] of an existing history entry; database cases: write (inputs too when loadReadOnly follows), drop, restart the serial "
+    "counter (simulated fresh process), load or loadReadOnly, construct."
 )
 TOLERANCES = {"stored_values": 0.0, "kept_values": "equal value and shape (dtype/container type not judged)", "volume_unchanged_rel": 1e-12, "volume_fresh_rel": 1e-9}
 EXHAUSTIVE = {"quick": False, "thorough": False}
@@ -57,6 +74,8 @@ _QUICK_FLOORS = {
     "restore.grid-changed-in-scope": 60, "restore.after-entry": 350, "cache.obj": 6000, "cache.material": 4000, "cache.fresh-recompute": 35,
     "copy.equal": 500, "copy.alias-walk": 500, "copy.mutation": 500, "serial.fresh": 1200, "serial.registry": 800, "serial.after-db-load": 12,
     "readonly.refused": 5000, "readonly.setter-probe": 200, "readonly.unchanged": 14,
+    "readonly.refused-as-read-only": 5000, "readonly.delete-probe": 100, "readonly.history-delete-probe": 10, "readonly.loadReadOnly": 6,
+    "restore.exit-by-exception": 120, "restore.exception-through-nested": 30, "restore.definition-flag": 100000, "restore.delete-in-scope": 100, "restore.same-name-other-class": 40,
     "hook:StateRetainer.__exit__": 700, "hook:ParameterCollection.restoreBackup": 6000, "hook:StructuredGrid.restoreBackup": 600, "hook:ParameterCollection.__deepcopy__": 5000,
 }
 FLOORS = {"quick": _QUICK_FLOORS, "thorough": {k: 20 * v for k, v in _QUICK_FLOORS.items()}}
@@ -65,7 +84,9 @@ ASSUMPTIONS = [
     "database cases simulate a fresh process by dropping every live object and resetting parameterCollections.GLOBAL_SERIAL_NUM to -1 before Database.load",
     "pickle clones and database-loaded twins keep their serial number by design (DESIGN.md C16) and are excluded from the uniqueness registry",
     "kept parameters are judged by value and shape; a change of container type or dtype only (1 -> 1.0, list -> equal array) is not judged",
-    "in-place mutations are only generated for parameters that no open scope keeps (an in-place change is not an assignment)",
+    "in-place mutations and deletions (del p[name]) are only generated for parameters that no open scope keeps (neither is an assignment)",
+    "a parameter that has a default and holds no stored value is observed through its public getter: 'absent', 'stored default' and any internal "
+    "marker that reads as the default are the same observation",
 ]
 
 
@@ -78,7 +99,7 @@ def plan(tier, seed):
     out += [{"name": "asm%d" % i, "kind": "scopes", "root": "asm", "n": 60 * m} for i in range(3)]
     out += [{"name": "blk%d" % i, "kind": "scopes", "root": "blk", "n": 120 * m} for i in range(2)]
     out += [{"name": "ro%d" % i, "kind": "readonly", "n": 10 * m} for i in range(2)]
-    out += [{"name": "db", "kind": "db", "n": 16 * m}]
+    out += [{"name": "db" if i == 0 else "db%d" % i, "kind": "db", "n": 16 * m} for i in range(2)]
     return out
 
 
@@ -201,6 +222,10 @@ def show(f):
         return repr(f)[:200]
 
 
+def shown(f):
+    return "<unset / reads the NoDefault sentinel>" if f == UNSET else str(show(f))[:150]
+
+
 def show_grid(g):
     return {"pitch": show(g[1]), "bounds": show(g[2]), "offset": show(g[3])}
 
@@ -266,8 +291,17 @@ def obs_node(o, index):
     pdict = o.p.__dict__
     from armi.reactor.parameters import NoDefault
 
-    for name, field, _pd in defs_of(o):
-        d[name] = freeze(pdict.get(field, NoDefault), index)
+    for name, field, pd in defs_of(o):
+        v = pdict.get(field, NoDefault)
+        if v is NoDefault and pd.default is not NoDefault:
+            # nothing stored (e.g. after ``del p[name]``): the observation is what the public getter reports - by the Parameter
+            # contract the default.  (Representation-independent: "absent", "stored default" and "stored sentinel that reads as
+            # the default" are the same observation; a getter that hands out the NoDefault sentinel itself freezes to UNSET.)
+            try:
+                v = getattr(o.p, name)
+            except Exception as e:
+                v = "<reading raises %s>" % type(e).__name__
+        d[name] = freeze(v, index)
     x = {"#hist": freeze(pdict.get("_hist")), "#p.assigned": pdict.get("assigned"), "#cached": freeze(getattr(o, "cached", None), index)}
     m = getattr(o, "material", None)
     if m is not None:
@@ -297,7 +331,7 @@ def obs(root, nodes=None):
     for n in nodes:
         cls = type(n.p)
         if cls not in defs:
-            defs[cls] = {name: pd.assigned for name, _f, pd in defs_of(n)}
+            defs[cls] = {name: (id(pd), pd.assigned) for name, _f, pd in defs_of(n)}
     return {"nodes": per, "defs": defs}
 
 
@@ -569,7 +603,7 @@ def make_root(rng, kind):
         cs_ = gen.core_spec(rng, rings=rng.choice([1, 2, 2]), symmetry=rng.choice(["third periodic", "full"]), ndesigns=rng.randint(1, 2), nblocks=rng.randint(1, 3),
                             holes=rng.choice([0.0, .3, .5]))
         r, cs, bp, text = gen.build_reactor(cs_)
-        return r, {"cs": cs, "bp": bp, "kind": "generated reactor"}
+        return r, {"cs": cs, "bp": bp, "kind": "generated reactor", "text": text}
     if kind == "small":
         from armi.testing import loadTestReactor
         from armi.tests import TEST_ROOT
@@ -607,6 +641,18 @@ class Abort(Exception):
     pass
 
 
+class Leave(Exception):
+    """private exception raised as the last statement of a with-body: the scope (and ``levels - 1`` enclosing scopes) is left
+    through an exception instead of normally; caught by the harness outside the with statement"""
+
+    def __init__(self, levels):
+        Exception.__init__(self, "harness: leaving %d retainState scope(s) through an exception" % levels)
+        self.levels = levels
+
+
+P_LEAVE = 0.15
+
+
 def abort(ctx):
     ctx.aborted = True
     raise Abort()
@@ -616,6 +662,7 @@ class Level:
     def __init__(self, target, nodes, keep, mode):
         self.target, self.nodes, self.keep, self.mode = target, nodes, keep, mode
         self.keep_ids = {id(k) for k in keep}
+        self.kept_names = {k.name for k in keep}
         self.node_ids = {id(n): i for i, n in enumerate(nodes)}
         self.pre = None
         self.inner_grid_scopes = set()  # ids of grid-owning nodes that an inner scope also covered
@@ -635,6 +682,7 @@ class Ctx:
         self.nontrivial = False
         self.inplace = set()
         self.aborted = False
+        self.deleted = {}  # (id(o), name) -> (o, name, field, pd): parameters with a default that this history deleted
 
     def kept_levels(self, o, pd):
         return [L for L in self.stack if id(pd) in L.keep_ids and id(o) in L.node_ids]
@@ -686,6 +734,8 @@ def assign(ctx, o, name, field, pd, value, how=None):
 def safe_for_kept(ctx, o, name, field, pd, allow=None):
     """After an assignment to a definition kept by an open scope: is python's `entry != current` of that scope well defined and truthful?
     (steers the generator away from the two known defects unless the case is meant to plant one)"""
+    if ctx.hazard_mode == "any":
+        return True  # the defects the steering avoided are repaired: a share of the cases lets kept parameters receive any value
     cur = raw(o, field)
     for L in ctx.kept_levels(o, pd):
         old = thaw(L.pre["nodes"][L.node_ids[id(o)]][0][name])
@@ -695,12 +745,34 @@ def safe_for_kept(ctx, o, name, field, pd, allow=None):
     return True
 
 
-def edit_assign(ctx, o=None, never=False, prefer_kept=True):
+def edit_samename(ctx):
+    """assign a parameter whose *name* - but not whose definition - is kept by an open scope (Block 'power' kept, Core 'power' assigned):
+    value and definition flag of the other class's parameter must be restored"""
+    from armi.reactor.parameters import parameterDefinitions as pdm
+
+    rng = ctx.rng
+    L = rng.choice(ctx.stack)
+    if not L.kept_names:
+        return False
+    first = {}
+    for n in L.nodes:
+        first.setdefault(type(n.p), n)
+    cands = [(cls, d) for cls, n in first.items() for d in defs_of(n) if d[0] in L.kept_names and id(d[2]) not in L.keep_ids and d[0] != "serialNum"]
+    if not cands:
+        return False
+    cls, d = rng.choice([c for c in cands if c[1][2].assigned == pdm.NEVER] or cands)
+    o = rng.choice([n for n in L.nodes if type(n.p) is cls])
+    ctx.kinds.add("same-name-other-class")
+    ctx.rec.hit("restore.same-name-other-class")
+    edit_assign(ctx, o, cand=d)
+    return True
+
+
+def edit_assign(ctx, o=None, never=False, prefer_kept=True, cand=None):
     rng = ctx.rng
     o = o or pick_node(ctx)
     defs = defs_of(o)
-    cand = None
-    if never:
+    if never and cand is None:
         from armi.reactor.parameters import parameterDefinitions as pdm
 
         nv = [d for d in defs if d[2].assigned == pdm.NEVER and d[0] != "serialNum"]
@@ -771,6 +843,48 @@ def edit_inplace(ctx, o=None):
     ctx.kinds.add("inplace:" + type(v).__name__)
     ctx.log("%s.p.%s mutated in place" % (level_of(o), name))
     return True
+
+
+def edit_delete(ctx, o=None):
+    """``del o.p[name]`` of a stored, non-critical parameter that no open scope keeps (a deletion is not an assignment: what
+    "kept" means for it is not stated).  Inside a scope the deletion must be undone at exit like any other change."""
+    from armi.reactor.parameters import NoDefault
+
+    rng = ctx.rng
+    o = o or pick_node(ctx)
+    d = o.p.__dict__
+    cands = [(name, field, pd) for name, field, pd in defs_of(o)
+             if name != "serialNum" and d.get(field, NoDefault) is not NoDefault and not is_link(d[field]) and sensitive_gen(o, name) is None
+             and not ctx.kept_levels(o, pd)]
+    if not cands:
+        return False
+    name, field, pd = rng.choice(cands)
+    del o.p[name]
+    ctx.inplace.discard((id(o), name))
+    if pd.default is not NoDefault:
+        ctx.deleted[(id(o), name)] = (o, name, field, pd)
+    if ctx.stack:
+        ctx.rec.hit("restore.delete-in-scope")
+    ctx.kinds.add("delete:" + ("defaulted" if pd.default is not NoDefault else "no-default"))
+    ctx.log("del %s.p[%s]" % (level_of(o), name))
+    return True
+
+
+def heal_deleted(ctx, nodes):
+    """Before a back-up point (scope entry, copy) of ``nodes``: unless the case is meant to plant the recorded defect
+    ``*/deleted-parameter-reads-NoDefault-sentinel`` give every still-deleted defaulted parameter a value again (an ordinary assignment)."""
+    from armi.reactor.parameters import NoDefault
+
+    if ctx.hazard_mode == "deleted-default" or not ctx.deleted:
+        return
+    ids = {id(n) for n in nodes}
+    for key, (o, name, field, pd) in list(ctx.deleted.items()):
+        if o.p.__dict__.get(field, NoDefault) is not NoDefault:
+            del ctx.deleted[key]  # assigned again or restored by a scope exit meanwhile
+        elif id(o) in ids:
+            if assign(ctx, o, name, field, pd, ctx.rng.uniform(1e3, 2e3)):
+                ctx.log("%s.p.%s = <float> (was deleted)" % (level_of(o), name))
+                del ctx.deleted[key]
 
 
 def edit_hist(ctx, o=None):
@@ -886,13 +1000,16 @@ def edits(ctx, n, where):
         x = rng.random()
         try:
             if x < .42:
-                edit_assign(ctx)
+                if not (ctx.stack and rng.random() < .12 and edit_samename(ctx)):
+                    edit_assign(ctx)
             elif x < .50:
                 edit_assign(ctx, never=True)
             elif x < .62:
                 edit_inplace(ctx)
             elif x < .67:
                 edit_hist(ctx)
+            elif x < .72:
+                edit_delete(ctx)
             elif x < .92:
                 edit_api(ctx)
             elif len(ctx.nodes) < 400 or rng.random() < .3:
@@ -957,8 +1074,13 @@ def compare(ctx, L, pre, inside, post, depth, exit_exc):
     """the restore law for one scope"""
     rec = ctx.rec
     nodes = L.nodes
-    w = dict(ctx.w, scope_target=label(nodes, 0), scope_depth=depth, keep_mode=L.mode, keep=sorted({k.name for k in L.keep})[:40])
+    w = dict(ctx.w, scope_target=label(nodes, 0), scope_depth=depth, keep_mode=L.mode, keep=sorted({k.name for k in L.keep})[:40],
+             scope_left_by="exception raised in the with-body" if exit_exc else "normal end of the with-body")
+    from armi.reactor.parameters import NoDefault
+
     rec.hit("restore.scope-judged")
+    if exit_exc:
+        rec.hit("restore.exit-by-exception")
     if depth > 0:
         rec.hit("restore.nested-lifo")
     nvals = nkept = 0
@@ -986,14 +1108,20 @@ def compare(ctx, L, pre, inside, post, depth, exit_exc):
                 if c != b and (opaque or not loose_equal(thaw(b), thaw(c))):
                     h = hazard(thaw(a), thaw(b))
                     key = "restoreBackup/kept-array-broadcast-equal-lost" if h == "broadcast-equal" else "kept/value-not-retained"
+                    if c == UNSET and pd.default is not NoDefault:
+                        key = "restore/deleted-parameter-reads-NoDefault-sentinel"
                     viol(key, "kept parameter %s of %s: value before exit %s, after exit %s (entry value %s)" % (name, label(nodes, i), str(show(b))[:150], str(show(c))[:150], str(show(a))[:150]),
                          {"object": label(nodes, i), "param": name, "entry": show(a), "before_exit": show(b), "after_exit": show(c)})
             elif c != a:
-                if (id(n), name) in ctx.inplace:
+                if c == UNSET and pd.default is not NoDefault:
+                    # the getter of a parameter that has a default hands out the NoDefault sentinel: the unset state was backed up
+                    # as the sentinel and stored as a value by the restore
+                    key = "restore/deleted-parameter-reads-NoDefault-sentinel"
+                elif (id(n), name) in ctx.inplace:
                     key = "restore/in-place-mutation-not-undone"
                 else:
                     key = "restore/non-kept-parameter-differs"
-                viol(key, "parameter %s of %s (%s -> %s in scope) is %s after the scope, entry value %s" % (name, label(nodes, i), kind_of(a), kind_of(b), str(show(c))[:150], str(show(a))[:150]),
+                viol(key, "parameter %s of %s (%s -> %s in scope) is %s after the scope, entry value %s" % (name, label(nodes, i), kind_of(a), kind_of(b), shown(c), shown(a)),
                      {"object": label(nodes, i), "param": name, "entry": show(a), "before_exit": show(b), "after_exit": show(c)})
         # non-parameter state
         if x2["#hist"] != x0["#hist"]:
@@ -1027,10 +1155,12 @@ def compare(ctx, L, pre, inside, post, depth, exit_exc):
             viol("assigned-flag/collection-not-restored", "p.assigned of %s is %r after the scope, %r at entry" % (label(nodes, i), x2["#p.assigned"], x0["#p.assigned"]), {"object": label(nodes, i)})
     for cls, d0 in pre["defs"].items():
         d2 = post["defs"][cls]
-        kept_names = {k.name for k in L.keep}
-        for name, m0 in d0.items():
-            if name not in kept_names and d2[name] != m0:
-                viol("assigned-flag/definition-not-restored", "definition %s.%s has assigned=%r after the scope, %r at entry" % (cls.__name__, name, d2[name], m0), {"param": name})
+        for name, (pid, m0) in d0.items():
+            rec.hit("restore.definition-flag")
+            # waived for the kept definitions themselves (a definition object is shared by the classes that inherit it), not for
+            # equally named definitions of other classes
+            if pid not in L.keep_ids and d2[name][1] != m0:
+                viol("assigned-flag/definition-not-restored", "definition %s.%s has assigned=%r after the scope, %r at entry" % (cls.__name__, name, d2[name][1], m0), {"param": name})
                 break
     rec.hit("restore.values-compared", nvals)
     rec.hit("restore.kept-compared", nkept)
@@ -1068,13 +1198,14 @@ def run_level(ctx, depth, maxdepth, target):
     nodes = walk(target)
     mode = ctx.modes[depth]
     keep = choose_keep(ctx, target, nodes, mode)
-    plant_here = ctx.hazard_mode != "none" and ctx.plant_level == depth
+    plant_here = ctx.hazard_mode in ("array-shape-change", "broadcast-equal", "container-of-arrays") and ctx.plant_level == depth
     plant = None
     if plant_here:
         plant = prepare_plant(ctx, nodes)
         if plant is not None and not any(k is plant[3] for k in keep):
             keep.append(plant[3])
-    bad = self_hazardous_defs(nodes, {id(k) for k in keep})
+    heal_deleted(ctx, nodes)
+    bad = self_hazardous_defs(nodes, {id(k) for k in keep}) if ctx.hazard_mode != "any" else set()
     if plant is not None and ctx.hazard_mode == "container-of-arrays":
         bad.discard(id(plant[3]))
     if bad:
@@ -1090,26 +1221,38 @@ def run_level(ctx, depth, maxdepth, target):
     arg = as_iterable(rng, keep, mode)
     failed = None
     inside = None
+    leave = None
     try:
         with (target.retainState(arg) if arg is not None else target.retainState()):
             ctx.stack.append(L)
-            if depth == 0 or rng.random() < .3:
-                rec.hit("restore.after-entry")
-                ent = obs(target, nodes)
-                bad = diff_obs(pre, ent, nodes)
-                if bad:
-                    rec.violation("enter/changes-observable-state", "entering the scope changed %s" % bad[0], dict(ctx.w, scope_target=label(nodes, 0)))
-            edits(ctx, rng.randint(2, 10), "in-scope")
-            if depth + 1 < maxdepth:
-                nxt = choose_inner_target(ctx, target, nodes)
-                run_level(ctx, depth + 1, maxdepth, nxt)
-                edits(ctx, rng.randint(0, 6), "in-scope")
-                if rng.random() < .3 and depth + 1 < maxdepth:  # a second sibling scope at the same depth
-                    run_level(ctx, depth + 1, maxdepth, choose_inner_target(ctx, target, nodes))
-            if plant is not None:
-                do_plant(ctx, plant)
+            try:
+                if depth == 0 or rng.random() < .3:
+                    rec.hit("restore.after-entry")
+                    ent = obs(target, nodes)
+                    bad = diff_obs(pre, ent, nodes)
+                    if bad:
+                        rec.violation("enter/changes-observable-state", "entering the scope changed %s" % bad[0], dict(ctx.w, scope_target=label(nodes, 0)))
+                edits(ctx, rng.randint(2, 10), "in-scope")
+                if depth + 1 < maxdepth:
+                    nxt = choose_inner_target(ctx, target, nodes)
+                    run_level(ctx, depth + 1, maxdepth, nxt)
+                    edits(ctx, rng.randint(0, 6), "in-scope")
+                    if rng.random() < .3 and depth + 1 < maxdepth:  # a second sibling scope at the same depth
+                        run_level(ctx, depth + 1, maxdepth, choose_inner_target(ctx, target, nodes))
+                if plant is not None:
+                    do_plant(ctx, plant)
+                if rng.random() < P_LEAVE:
+                    leave = Leave(rng.choice([1, 1, 2, 3]))
+            except Leave as lv:  # an inner scope was left through an exception that goes on through this scope
+                leave = lv
             ctx.stack.pop()
             inside = obs(target, nodes)
+            if leave is not None:
+                ctx.log("raise inside the scope on %s (propagates through %d level(s))" % (level_of(target), leave.levels))
+                raise leave  # last statement of the with-body
+    except Leave as lv:
+        if lv is not leave:
+            raise
     except Abort:
         raise
     except Exception as e:
@@ -1126,9 +1269,15 @@ def run_level(ctx, depth, maxdepth, target):
         else:
             classify_exit_failure(ctx, L, pre, inside, failed, depth)
         raise Abort()
-    ctx.log("exit scope on %s" % level_of(target))
+    ctx.log("exit scope on %s%s" % (level_of(target), " (through the exception)" if leave is not None else ""))
     post = obs(target, nodes)
-    compare(ctx, L, pre, inside, post, depth, None)
+    compare(ctx, L, pre, inside, post, depth, leave is not None)
+    if leave is not None:
+        ctx.kinds.add("exit-by-exception")
+        leave.levels -= 1
+        if leave.levels > 0 and depth > 0:
+            rec.hit("restore.exception-through-nested")
+            raise leave
 
 
 def diff_obs(a, b, nodes):
@@ -1337,6 +1486,8 @@ def alias_walk(rec, orig_nodes, cp_nodes, how, w):
 
 
 def copy_check(ctx):
+    from armi.reactor.parameters import NoDefault
+
     rng, rec = ctx.rng, ctx.rec
     pool = ctx.stack[0].nodes if ctx.stack else ctx.nodes
     small = [n for n in pool if level_of(n) in ("Block", "Component", "Assembly")]
@@ -1344,6 +1495,7 @@ def copy_check(ctx):
     how = rng.choice(["deepcopy", "pickle"])
     w = dict(ctx.w, copy=how, copied=repr(x))
     nodes = walk(x)
+    heal_deleted(ctx, nodes)
     o0 = obs(x, nodes)
     try:
         cp = copy.deepcopy(x) if how == "deepcopy" else pickle.loads(pickle.dumps(x))
@@ -1372,7 +1524,10 @@ def copy_check(ctx):
                         return
                 continue
             if p0[k] != p1[k]:
-                rec.violation("copy/%s/values-differ" % how, "parameter %s of %s: original %s, copy %s" % (k, label(nodes, i), str(show(p0[k]))[:150], str(show(p1[k]))[:150]), dict(w, param=k))
+                key = "copy/%s/values-differ" % how
+                if p1[k] == UNSET and n.p.paramDefs[k].default is not NoDefault:
+                    key = "copy/%s/deleted-parameter-reads-NoDefault-sentinel" % how  # the copy's getter hands out the sentinel
+                rec.violation(key, "parameter %s of %s: original %s, copy %s" % (k, label(nodes, i), shown(p0[k]), shown(p1[k])), dict(w, param=k))
                 return
         for k in ("#hist", "#material", "#grid", "#api.T", "#api.ndens"):
             if k in x0 and x0[k] != x1[k]:
@@ -1390,10 +1545,12 @@ def copy_check(ctx):
             if rng.random() < .5:
                 if not edit_inplace(sub, o):
                     edit_assign(sub, o, prefer_kept=False)
-            elif rng.random() < .85:
+            elif rng.random() < .75:
                 edit_assign(sub, o, prefer_kept=False)
-            else:
+            elif rng.random() < .5:
                 edit_hist(sub, o)
+            else:
+                edit_delete(sub, o)
         # in-place mutation of every mutable value of a few objects of the copy (arrays, lists, dicts)
         for o in rng.sample(cnodes, min(3, len(cnodes))):
             for _ in range(4):
@@ -1432,7 +1589,7 @@ def diff_all(a, b, nodes):
         (p0, x0), (p1, x1) = a["nodes"][i], b["nodes"][i]
         for k in p0:
             if p0[k] != p1[k]:
-                out.append("%s.p.%s: %s -> %s" % (label(nodes, i), k, str(show(p0[k]))[:80], str(show(p1[k]))[:80]))
+                out.append("%s.p.%s: %s -> %s" % (label(nodes, i), k, shown(p0[k])[:80], shown(p1[k])[:80]))
         for k in x0:
             if k != "#p.assigned" and x0[k] != x1.get(k):
                 out.append("%s %s changed" % (label(nodes, i), k))
@@ -1442,6 +1599,12 @@ def diff_all(a, b, nodes):
 # ----------------------------------------------------------------------------- one scope history
 TARGET_LEVELS = {"gen": ["Reactor", "Core", "Assembly", "Block", "Component"], "small": ["Reactor", "Core", "Assembly", "Block", "Component"],
                  "cart": ["Reactor", "Core", "Core", "Assembly"], "asm": ["Assembly", "Block", "Component"], "blk": ["Block", "Component"]}
+
+
+# "none": kept parameters never receive a value whose comparison with the entry value is a numpy hazard, deleted defaulted parameters
+# are re-assigned before a back-up point; "any": no steering of kept values; the three named ones plant that hazard on a kept parameter;
+# "deleted-default": deleted defaulted parameters stay deleted across scope entries and copies
+HAZARD_MODES = ["none"] * 2 + ["any"] * 3 + ["array-shape-change", "broadcast-equal", "container-of-arrays"] * 2 + ["deleted-default"] * 3
 
 
 def scope_case(rec, rng, rootkind, case):
@@ -1458,7 +1621,7 @@ def scope_case(rec, rng, rootkind, case):
     target = rng.choice(cands) if cands else root
     maxdepth = rng.choice([1, 1, 2, 2, 3, 4])
     ctx.modes = [rng.choice(["empty", "random", "random", "all"]) for _ in range(maxdepth)]
-    ctx.hazard_mode = rng.choice(["none"] * 8 + ["array-shape-change", "broadcast-equal", "container-of-arrays"])
+    ctx.hazard_mode = rng.choice(HAZARD_MODES)
     ctx.plant_level = rng.randrange(maxdepth)
     w.update(target_level=lv, depth=maxdepth, keep_modes=ctx.modes, hazard=ctx.hazard_mode)
     snapB = None
@@ -1498,38 +1661,60 @@ def scope_case(rec, rng, rootkind, case):
         pass
     except Exception as e:
         rec.crash("history(harness?)", e, w)
-    rec.case([rootkind, lv, maxdepth, ctx.modes, ctx.hazard_mode if ctx.planted else "none", sorted(ctx.kinds), sorted(ctx.copies)], nontrivial=ctx.nontrivial,
+    rec.case([rootkind, lv, maxdepth, ctx.modes, ctx.hazard_mode if (ctx.planted or ctx.hazard_mode in ("any", "deleted-default")) else "none", sorted(ctx.kinds), sorted(ctx.copies)],
+             nontrivial=ctx.nontrivial,
              sample={"root": info["kind"], "objects": len(ctx.nodes), "target": lv, "depth": maxdepth, "keep_modes": ctx.modes, "history": hist[:60]} if case < 2 else None)
     if ctx.planted:
         rec.add("kept-hazard-planted:" + ctx.hazard_mode)
 
 
 # ============================================================================= read-only
-def readonly_case(rec, rng, case):
+def _is_readonly_refusal(e):
+    """armi's own read-only refusal (ParameterCollection.__setattr__/__setitem__/__delitem__), as opposed to a setter's ValueError/TypeError
+    on a value it cannot hold or an AssertionError"""
+    return isinstance(e, RuntimeError) and "read-only" in str(e)
+
+
+def _note_refusal(rec, e):
+    rec.hit("readonly.refused")
+    if _is_readonly_refusal(e):
+        rec.hit("readonly.refused-as-read-only")
+    else:
+        rec.hit("readonly.refused-otherwise")
+        rec.add("readonly: refused otherwise, by %s" % type(e).__name__)
+
+
+def readonly_sample(rng, r, nodes, k=60):
+    """indices of the probed objects: everything when small; else the reactor, each of its direct children (core, spent fuel pool, ...) and
+    their first children, one object of every class, every object outside the core, and a random rest"""
+    if len(nodes) < k:
+        return list(range(len(nodes)))
+    must = {0}
+    byclass = {}
+    core_ids = {id(n) for n in walk(r.core)} if getattr(r, "core", None) is not None else set()
+    outside = []
+    for i, n in enumerate(nodes):
+        if n.parent is r or (n.parent is not None and n.parent.parent is r and len(must) < 12):
+            must.add(i)
+        byclass.setdefault(type(n).__name__, []).append(i)
+        if i and id(n) not in core_ids:
+            outside.append(i)
+    for ii in byclass.values():
+        must.add(rng.choice(ii))
+    must.update(outside[:15])
+    rest = [i for i in range(len(nodes)) if i not in must]
+    must.update(rng.sample(rest, max(0, min(len(rest), k - len(must)))))
+    return sorted(must)
+
+
+def readonly_probe(rec, rng, r, nodes, w, via):
+    """The read-only law on reactor ``r`` (already frozen through ``via``): every assignment / deletion anywhere is refused and nothing changes.
+    -> (attempts, sorted names of the probes that broke it)"""
     from armi.reactor import blocks
     from armi.reactor.components import Component
-    from armi.reactor.reactorParameters import makeParametersReadOnly
+    from armi.reactor.parameters import NoDefault
 
-    hist = []
-    w = {"case": case, "history": hist}
-    kind = rng.choice(["gen", "gen", "small"])
-    try:
-        r, info = make_root(rng, kind)
-    except Exception as e:
-        rec.crash("build-root(harness?)/" + kind, e, w)
-        return
-    ctx = Ctx(rec, rng, r, info, w)
-    try:
-        edits(ctx, rng.randint(5, 20), "prelude")
-    except Abort:
-        return
-    nodes = ctx.nodes
     o0 = obs(r, nodes)
-    try:
-        makeParametersReadOnly(r)
-    except Exception as e:
-        rec.crash("makeParametersReadOnly", e, w)
-        return
     accepted = {}
     attempts = 0
 
@@ -1538,13 +1723,12 @@ def readonly_case(rec, rng, case):
         attempts += 1
         try:
             fn()
-        except Exception:
-            rec.hit("readonly.refused")
+        except Exception as e:
+            _note_refusal(rec, e)
             return
         accepted.setdefault(how, label(nodes, node_i))
 
-    sample_nodes = range(len(nodes)) if len(nodes) < 60 else sorted(rng.sample(range(len(nodes)), 60))
-    for i in sample_nodes:
+    for i in readonly_sample(rng, r, nodes):
         n = nodes[i]
         defs = defs_of(n)
         for name, field, pd in (defs if rng.random() < .15 else rng.sample(defs, min(12, len(defs)))):
@@ -1556,13 +1740,15 @@ def readonly_case(rec, rng, case):
         attempt("readOnly=False", lambda: setattr(n.p, "readOnly", False), i)
         attempt("update()", lambda: n.p.update({defs[0][0]: 1.0}), i)
     for how, label_ in accepted.items():
-        rec.violation("readonly/assignment-accepted/" + how, "%s on %s of a read-only reactor did not raise" % (how, label_), w)
+        rec.violation("readonly/assignment-accepted/" + how, "%s on %s of a reactor made read-only by %s did not raise" % (how, label_, via), dict(w, via=via))
+    if accepted:
+        return attempts, sorted(accepted)  # random values now sit in geometry-critical parameters: nothing further can be observed on this reactor
     o1 = obs(r, nodes)
     rec.hit("readonly.unchanged")
     d = diff_all(o0, o1, nodes)
     if d:
-        rec.violation("readonly/value-changed-by-assignment", "after refused assignments the read-only reactor changed: %s" % d[0], w)
-    # public setters and the history-tuple item syntax, one object at a time so that a change is attributed
+        rec.violation("readonly/value-changed-by-assignment", "after refused assignments the read-only reactor changed: %s" % d[0], dict(w, via=via))
+    # public setters, deletion and the history-tuple item syntax, one object at a time so that a change is attributed
     comps = [i for i in range(len(nodes)) if isinstance(nodes[i], Component) and nodes[i].parent is not None]
     blks = [i for i in range(len(nodes)) if isinstance(nodes[i], blocks.Block) and nodes[i].parent is not None]
     probes = []
@@ -1583,6 +1769,21 @@ def readonly_case(rec, rng, case):
         n = nodes[i]
         nm = rng.choice(defs_of(n))[0]
         probes.append(("history-tuple-item", i, lambda n=n, nm=nm: n.p.__setitem__((nm, 0), 1.0)))
+    # deletion of a parameter that holds a value (so that an accepted deletion is visible) ...
+    for i in rng.sample(range(len(nodes)), min(8, len(nodes))):
+        n = nodes[i]
+        held = [(name, freeze(n.p.__dict__[field]) != freeze(pd.default)) for name, field, pd in defs_of(n)
+                if n.p.__dict__.get(field, NoDefault) is not NoDefault and sensitive_gen(n, name) is None and not is_link(n.p.__dict__[field])]
+        held = [nm for nm, differs in held if differs] or [nm for nm, _d in held]  # preferably one whose deletion would show
+        if held:
+            nm = rng.choice(held)
+            probes.append(("delete", i, lambda n=n, nm=nm: n.p.__delitem__(nm)))
+    # ... and of an existing history-tuple entry
+    with_hist = [i for i in range(len(nodes)) if nodes[i].p._hist]
+    for i in rng.sample(with_hist, min(6, len(with_hist))):
+        n = nodes[i]
+        key = rng.choice(sorted(n.p._hist, key=repr))
+        probes.append(("history-tuple-delete", i, lambda n=n, key=key: n.p.__delitem__(key)))
     rng.shuffle(probes)
     seen = set()
     for how, i, fn in probes:
@@ -1590,20 +1791,66 @@ def readonly_case(rec, rng, case):
         try:
             fn()
             raised = False
-        except Exception:
-            rec.hit("readonly.refused")
+        except Exception as e:
+            _note_refusal(rec, e)
         rec.hit("readonly.setter-probe")
+        if how in ("delete", "history-tuple-delete"):
+            rec.hit("readonly.delete-probe" if how == "delete" else "readonly.history-delete-probe")
         o2 = obs(r, nodes)
         d = diff_all(o1, o2, nodes)
         if d and how not in seen:
             seen.add(how)
-            rec.violation("readonly/%s-changes-value" % how, "%s on %s of a read-only reactor %s and changed %s" % (how, label(nodes, i), "raised" if raised else "did not raise", d[0]),
-                          dict(w, api=how, raised=raised))
+            rec.violation("readonly/%s-changes-value" % how, "%s on %s of a reactor made read-only by %s %s and changed %s" % (how, label(nodes, i), via, "raised" if raised else "did not raise", d[0]),
+                          dict(w, api=how, raised=raised, via=via))
         elif not raised and how not in seen:
             seen.add(how)
-            rec.violation("readonly/assignment-accepted/" + how, "%s on %s of a read-only reactor did not raise" % (how, label(nodes, i)), dict(w, api=how))
+            rec.violation("readonly/assignment-accepted/" + how, "%s on %s of a reactor made read-only by %s did not raise" % (how, label(nodes, i), via), dict(w, api=how, via=via))
         o1 = o2
-    rec.case(["readonly", kind, len(nodes) > 50, sorted(seen)], nontrivial=attempts > 50, sample={"root": info["kind"], "objects": len(nodes), "attempts": attempts} if case < 1 else None)
+    return attempts, sorted(seen)
+
+
+def readonly_case(rec, rng, case):
+    from armi.reactor.reactorParameters import makeParametersReadOnly
+    from vlib import gen
+
+    hist = []
+    w = {"case": case, "history": hist}
+    kind = rng.choice(["gen", "gen", "small"])
+    try:
+        r, info = make_root(rng, kind)
+    except Exception as e:
+        rec.crash("build-root(harness?)/" + kind, e, w)
+        return
+    # the spent fuel pool (a child of the reactor next to the core) receives an assembly in half of the cases
+    pooled = False
+    sfp = next((c for c in r if type(c).__name__ == "SpentFuelPool"), None)
+    if sfp is not None and rng.random() < .5:
+        try:
+            pitch = rng.uniform(8, 14)
+            a = gen.build_assembly([gen.pin_block_spec(rng, kind="fuel", pitch=pitch, npins=rng.choice([1, 7]))], [rng.uniform(5, 30)])
+            sfp.add(a)
+            pooled = any(x is a for x in sfp)
+        except Exception as e:
+            rec.add("readonly: could not put an assembly into the spent fuel pool (%s), pool left empty" % type(e).__name__)
+    ctx = Ctx(rec, rng, r, info, w)
+    try:
+        edits(ctx, rng.randint(5, 20), "prelude")
+        for _ in range(rng.randint(2, 6)):  # history-tuple entries to be deleted later
+            edit_hist(ctx, rng.choice(ctx.nodes))
+    except Abort:
+        return
+    except Exception as e:
+        rec.crash("edit/prelude", e, w)
+        return
+    nodes = ctx.nodes
+    try:
+        makeParametersReadOnly(r)
+    except Exception as e:
+        rec.crash("makeParametersReadOnly", e, w)
+        return
+    attempts, seen = readonly_probe(rec, rng, r, nodes, w, "makeParametersReadOnly")
+    rec.case(["readonly", kind, len(nodes) > 50, pooled, seen], nontrivial=attempts > 50,
+             sample={"root": info["kind"], "objects": len(nodes), "attempts": attempts, "assembly in the spent fuel pool": pooled} if case < 1 else None)
 
 
 # ============================================================================= database / serial numbers
@@ -1623,6 +1870,9 @@ def db_case(rec, rng, case):
         r2.p.cycle, r2.p.timeNode = 0, 0
         db = Database("c16-%d-%d.h5" % (case, rng.randrange(10 ** 9)), "w")
         db.open()
+        readonly = rng.random() < .5
+        if readonly:  # Database.loadReadOnly takes settings and blueprints from the file
+            db.writeInputsToDB(info["cs"], bpString=info.get("text"))
         db.writeToDB(r2)
         written = {n.p.serialNum for n in walk(r2)}
         cs, bp = info["cs"], info["bp"]
@@ -1632,14 +1882,20 @@ def db_case(rec, rng, case):
         if restart:
             REG.retire_all()  # whatever is still alive (blueprint-held assemblies) belongs to the 'previous process'
             pc.GLOBAL_SERIAL_NUM = -1  # a fresh process (documented assumption)
-        r3 = db.load(0, 0, cs=cs, bp=bp)
+        if readonly:
+            from vlib.env import quiet
+
+            with quiet():
+                r3 = db.loadReadOnly(0, 0)
+        else:
+            r3 = db.load(0, 0, cs=cs, bp=bp)
         db.close()
     except Exception as e:
         rec.crash("db-roundtrip", e, w)
         return
     REG.mark_clone_tree(r3)
     loaded = {n.p.serialNum for n in walk(r3)}
-    w.update(restart=restart, loaded_max=max(loaded), n_loaded=len(loaded))
+    w.update(restart=restart, loaded_max=max(loaded), n_loaded=len(loaded), loaded_by="loadReadOnly" if readonly else "load")
     if loaded != written:  # not part of C16 (C04 judges the round trip); recorded only
         rec.add("db: loaded serial numbers differ from the written ones")
     fresh = []
@@ -1660,7 +1916,15 @@ def db_case(rec, rng, case):
     if len(set(nums)) != len(nums):
         rec.violation("serial/shared-by-live-objects", "objects constructed after a load share numbers among themselves", w)
     REG.check(rec, w)
-    rec.case(["db", kind, restart], nontrivial=len(loaded) > 3, sample={"root": info["kind"], "loaded": len(loaded), "restart": restart, "fresh": nums[:5]} if case < 1 else None)
+    seen = []
+    if readonly:
+        rec.hit("readonly.loadReadOnly")
+        try:
+            _attempts, seen = readonly_probe(rec, rng, r3, walk(r3), dict(w, history=[]), "Database.loadReadOnly")
+        except Exception as e:
+            rec.crash("readonly-probe(harness?)", e, w)
+    rec.case(["db", kind, restart, readonly, seen], nontrivial=len(loaded) > 3,
+             sample={"root": info["kind"], "loaded": len(loaded), "restart": restart, "loaded by": "loadReadOnly" if readonly else "load", "fresh": nums[:5]} if case < 1 else None)
     del fresh, r3
     gc.collect()
 
